@@ -149,21 +149,79 @@ func goRFC3339(s string) bool {
 	return true
 }
 
+// RFC 3339 section 5.6 date-time, ranges included ("T"/"Z" in either case, second 60 allowed
+// as a leap second).  Anything outside is malformed.
+var rfcRe = regexp.MustCompile(`^([0-9]{4})-([0-9]{2})-([0-9]{2})[Tt]([0-9]{2}):([0-9]{2}):([0-9]{2})(\.[0-9]+)?([Zz]|[+-]([0-9]{2}):([0-9]{2}))$`)
+
+func rfc3339Wellformed(s string) bool {
+	if strings.ContainsAny(s, "\n") {
+		return false
+	}
+	m := rfcRe.FindStringSubmatch(s)
+	if m == nil {
+		return false
+	}
+	n := func(x string) int { v, _ := strconv.Atoi(x); return v }
+	y, mo, d, h, mi, sec := n(m[1]), n(m[2]), n(m[3]), n(m[4]), n(m[5]), n(m[6])
+	if mo < 1 || mo > 12 || h > 23 || mi > 59 || sec > 60 || d < 1 {
+		return false
+	}
+	dim := []int{31, 28, 31, 30, 31, 30, 31, 31, 30, 31, 30, 31}[mo-1]
+	if mo == 2 && y%4 == 0 && (y%100 != 0 || y%400 == 0) {
+		dim = 29
+	}
+	if d > dim {
+		return false
+	}
+	if m[8] != "Z" && m[8] != "z" && (n(m[9]) > 23 || n(m[10]) > 59) {
+		return false
+	}
+	return true
+}
+
+// rfc3339MustAccept: the well-formed timestamps Go documents to accept (upper-case T and Z,
+// no leap second).
+func rfc3339MustAccept(s string) bool {
+	return rfc3339Wellformed(s) && !strings.ContainsAny(s, "tz") && s[17:19] != "60"
+}
+
+// createdAccepted observes pack.go's own validation through the public API.
+func createdAccepted(s string) (bool, error) {
+	np := &nullPusher{}
+	_, err := oras.PackManifest(ctx, np, oras.PackManifestVersion1_1, "application/vnd.verif.t", oras.PackManifestOptions{
+		ManifestAnnotations: map[string]string{ocispec.AnnotationCreated: s},
+	})
+	if err == nil {
+		return true, nil
+	}
+	if errors.Is(err, oras.ErrInvalidDateTimeFormat) {
+		return false, nil
+	}
+	return false, err
+}
+
 func timeCase(s string) {
 	id := run.NewID()
-	_, err := time.Parse(time.RFC3339, s)
+	ok, err := createdAccepted(s)
 	obs := "0"
-	if err == nil {
+	if err != nil {
+		obs = "ERR:" + common.Hex(err.Error())
+	} else if ok {
 		obs = "1"
-		run.Count("time_valid")
+		run.Count("time_accepted")
 		run.Nontrivial("T:" + s)
 	} else {
-		run.Count("time_invalid")
+		run.Count("time_rejected")
 	}
 	run.Case(id, "T "+common.Hex(s), obs)
-	if goRFC3339(s) != (err == nil) {
-		run.OracleFail(id, "time-recogniser", fmt.Sprintf("time.Parse(RFC3339, %q) ok=%v but the documented grammar says %v", s, err == nil, goRFC3339(s)),
-			map[string]string{"op": "T", "hex": common.Hex(s)})
+	rep := map[string]string{"op": "T", "hex": common.Hex(s)}
+	switch {
+	case ok && !rfc3339Wellformed(s) && goRFC3339(s):
+		run.OracleFail(id, "created-lenient", fmt.Sprintf("created=%q is not RFC 3339 (one of the leniencies of time.Parse) but is accepted", s), rep)
+	case ok && !rfc3339Wellformed(s):
+		run.OracleFail(id, "created-malformed-accepted", fmt.Sprintf("created=%q is not RFC 3339 but is accepted", s), rep)
+	case !ok && rfc3339MustAccept(s):
+		run.OracleFail(id, "created-wellformed-rejected", fmt.Sprintf("created=%q is a well-formed RFC 3339 timestamp but is rejected: %v", s, err), rep)
 	}
 }
 
@@ -506,7 +564,8 @@ func descOf(mt string, data []byte) ocispec.Descriptor {
 // expectation from the documentation of PackManifest / Pack (independent of the Coq model)
 type expectation struct {
 	reject     bool // must fail with a validation error before any push
-	badCreated bool
+	badCreated bool // created is not RFC 3339: must fail
+	mayReject  bool // created is RFC 3339 in a form Go does not take (lower-case t/z, leap second): either
 	want       doc
 	invented   []ocispec.Descriptor
 	descAT     string
@@ -539,8 +598,10 @@ func expect(sp *spec) expectation {
 			e.reject = true
 		}
 	}
-	if v, ok := sp.Ann[key]; ok && !goRFC3339(v) {
+	if v, ok := sp.Ann[key]; ok && !rfc3339Wellformed(v) {
 		e.badCreated = true
+	} else if ok && !rfc3339MustAccept(v) {
+		e.mayReject = true
 	}
 	if e.reject || e.badCreated {
 		return e
@@ -748,13 +809,15 @@ func packCase(sp *spec) {
 			fail("reject-kind", "%s(%q) rejected with an undocumented error: %v", sp.Fn, sp.AT, err)
 		}
 		return
-	case e.badCreated:
-		if err == nil {
+	case e.badCreated || e.mayReject && kind == "invalid-datetime":
+		if err == nil && goRFC3339(sp.Ann[key]) {
+			fail("created-lenient", "%s: created=%q is not RFC 3339 (one of the leniencies of time.Parse) but the call succeeded: %v", sp.Fn, sp.Ann[key], desc)
+		} else if err == nil {
 			fail("bad-created-accepted", "%s: created=%q is malformed but the call succeeded: %v", sp.Fn, sp.Ann[key], desc)
 		} else if kind != "invalid-datetime" && kind != "injected" {
 			fail("bad-created-kind", "%s: created=%q malformed, error is %v", sp.Fn, sp.Ann[key], err)
 		}
-		if manifestPushes != 0 {
+		if manifestPushes != 0 && err != nil {
 			fail("bad-created-manifest-pushed", "%s: created=%q is malformed but a manifest was pushed", sp.Fn, sp.Ann[key])
 		}
 		return
